@@ -32,6 +32,9 @@ CONSTANTS Scenarios,     \* set of scenarios Init chooses from
           TestMode,      \* track/test.mode.enabled: next task starts immediately, no relative-time reset timer
           MaxEternal,    \* only the first MaxEternal requests of an eternal task are counted and sampled in the model
                          \* (keeps the state space finite without a state constraint); traces use a large value
+          FlushFix,      \* TRUE: repaired Worker.drive (ships what is left in the sampler before replacing it by the sampler of
+                         \* the next task of an over-committed parallel); FALSE: pinned behaviour (a sample added by the executor
+                         \* thread between send_samples() and the look at the future is lost)
           SelfFailFix,   \* TRUE: repaired actor.no_retry (a failure while handling a message from oneself, e.g. a wake-up, is
                          \* handled at once); FALSE: pinned behaviour (BenchmarkFailure is sent to oneself and may be overtaken)
           FaultKinds     \* set of fault kinds Init chooses from; {"none"} for the fault-free protocol (C01, C07)
@@ -192,7 +195,7 @@ DriveFrom(w, ws, skipped) ==
             THEN IF SkipFix THEN DriveFrom(w, ws1, skipped \cup {<<c, j>> : c \in mine})
                  ELSE [ws |-> ws1, send |-> <<>>, arm |-> 0, skipped |-> skipped \cup {<<c, j>> : c \in mine}]
             ELSE [ws |-> [ws1 EXCEPT !.fut = "submitted", !.sampq = <<>>],      \* a new Sampler replaces the old one
-                  send |-> <<>>, arm |-> 1, skipped |-> skipped]
+                  send |-> IF FlushFix THEN SendSamples(w, ws1) ELSE <<>>, arm |-> 1, skipped |-> skipped]
 
 WUnch == UNCHANGED <<scn, d2d, rc2d, rcbox, rcst, dtimers, drv, flt>>
 
